@@ -19,7 +19,7 @@ func H_C17_Supply() {
 	ee.Bank.Fund(Addr(0), "nund", circ)
 	nOther := rt.Choose(3)
 	var other [2]sdk.Int
-	names := [2]string{"aaa", "zzz"} // one sorts before nund, one after
+	names := [2]string{"ibc/27394FB0AA", "zzz"} // an IBC voucher (upper-case hash, sorts before nund) and one sorting after
 	for i := 0; i < nOther; i++ {
 		other[i] = rt.BigInt("supply."+names[i], 1, 128)
 		ee.Bank.Fund(Addr(1), names[i], other[i])
